@@ -1,6 +1,7 @@
 import SafeNet.Driver.Util
 import SafeNet.Base.Sha3
 import SafeNet.Model.Wire
+import SafeNet.Model.WireCbor
 /-!
 Line-protocol driver for the wire model (C12); op syntax and the value-tree token syntax are documented in
 `harness/hlight/src/bin/wire.rs` and `wire/tree.rs`.
@@ -78,6 +79,100 @@ def showTrees : List Tree → List String
 end
 
 def treeText (t : Tree) : String := " ".intercalate (showTree t)
+
+/-! ## named trees (CBOR ops): the same tokens plus `R<n> (.<field> <t>)*n` for struct bodies -/
+
+section Cbor
+open SafeNet.WireCbor
+
+mutual
+def parseCTree : Nat → List String → Option (CTree × List String)
+  | 0, _ => none
+  | _, [] => none
+  | fuel+1, w :: ws =>
+    match headTail w with
+    | none => none
+    | some (c, rest) =>
+      if c = 'N' ∧ rest = "" then some (.unit, ws)
+      else if c = 'T' ∧ rest = "" then some (.bool true, ws)
+      else if c = 'F' ∧ rest = "" then some (.bool false, ws)
+      else if c = 'U' then rest.toNat?.map fun n => (.u n, ws)
+      else if c = 'I' then rest.toNat?.map fun n => (.i n, ws)
+      else if c = 'S' then (unhex rest).map fun b => (.str b, ws)
+      else if c = 'B' then (unhex rest).map fun b => (.bytes b, ws)
+      else if c = 'O' ∧ rest = "" then some (.none, ws)
+      else if c = 'J' ∧ rest = "" then (parseCTree fuel ws).map fun (t, r) => (.some t, r)
+      else if c = 'Q' then rest.toNat?.bind fun n => (parseCTrees fuel n ws).map fun (ts, r) => (.seq ts, r)
+      else if c = 'P' then rest.toNat?.bind fun n => (parseCTrees fuel n ws).map fun (ts, r) => (.tup ts, r)
+      else if c = 'R' then rest.toNat?.bind fun n => (parseCFields fuel n ws).map fun (fs, r) => (.record fs, r)
+      else if c = 'V' then
+        match headTail rest with
+        | some (':', name) => some (.uvar (nm name), ws)
+        | _ => none
+      else if c = 'W' then
+        match headTail rest with
+        | some (':', name) => (parseCTree fuel ws).map fun (t, r) => (.nvar (nm name) t, r)
+        | _ => none
+      else none
+def parseCTrees : Nat → Nat → List String → Option (List CTree × List String)
+  | _, 0, ws => some ([], ws)
+  | 0, _, _ => none
+  | fuel+1, n+1, ws =>
+    match parseCTree fuel ws with
+    | none => none
+    | some (t, r) => (parseCTrees fuel n r).map fun (ts, r') => (t :: ts, r')
+def parseCFields : Nat → Nat → List String → Option (List (List Nat × CTree) × List String)
+  | _, 0, ws => some ([], ws)
+  | 0, _, _ => none
+  | _, _, [] => none
+  | fuel+1, n+1, w :: ws =>
+    match headTail w with
+    | some ('.', name) =>
+      match parseCTree fuel ws with
+      | none => none
+      | some (t, r) => (parseCFields fuel n r).map fun (fs, r') => ((nm name, t) :: fs, r')
+    | _ => none
+end
+
+mutual
+def showCTree : CTree → List String
+  | .unit => ["N"]
+  | .bool b => [if b then "T" else "F"]
+  | .u n => [s!"U{n}"]
+  | .i m => [s!"I{m}"]
+  | .str s => ["S" ++ hex s]
+  | .bytes s => ["B" ++ hex s]
+  | .none => ["O"]
+  | .some t => "J" :: showCTree t
+  | .seq ts => s!"Q{ts.length}" :: showCTrees ts
+  | .tup ts => s!"P{ts.length}" :: showCTrees ts
+  | .record fs => s!"R{fs.length}" :: showCFields fs
+  | .uvar n => ["V:" ++ nameStr n]
+  | .nvar n t => ("W:" ++ nameStr n) :: showCTree t
+def showCTrees : List CTree → List String
+  | [] => []
+  | t :: ts => showCTree t ++ showCTrees ts
+def showCFields : List (List Nat × CTree) → List String
+  | [] => []
+  | (k, t) :: fs => ("." ++ nameStr k) :: (showCTree t ++ showCFields fs)
+end
+
+def ctreeText (t : CTree) : String := " ".intercalate (showCTree t)
+
+def isPrefixC : List Nat → List Nat → Bool
+  | [], _ => true
+  | _, [] => false
+  | a :: as, b :: bs => a == b && isPrefixC as bs
+
+/-- canonical acceptance of a message: the codec's reader takes a value of the type from the front, and writing that value
+again gives a prefix of the input (`exact`: the whole input — golden vectors) -/
+def decodeAsC (ty : String) (bs : List Nat) (exact : Bool) : Option CTree := do
+  let (_, rd) ← cschemaOf ty
+  let (t, _) ← readMsg rd bs
+  let re := writeMsg t
+  if (if exact then re == bs else isPrefixC re bs) then some t else none
+
+end Cbor
 
 /-- the header type is the one-field struct whose field must be a known tag -/
 def extraOk (ty : String) (t : Tree) : Bool :=
@@ -185,6 +280,22 @@ def step (_ : Unit) (ws : List String) : Unit × String :=
           | some t => s!"{kindName k} ok {treeText t}"
           | none => s!"{kindName k} reject"
         else s!"{kindName k} reject")
+    | "cenc" :: ty :: rest => do
+      let (wr, _) ← SafeNet.WireCbor.cschemaOf ty
+      let (t, _) ← parseCTree (2 * rest.length + 4) rest
+      some (if SafeNet.WireCbor.conformsC wr t then hex (SafeNet.WireCbor.writeMsg t) else "schema-mismatch")
+    | ["cdec", ty, h] => do
+      let bs ← unhex h
+      let _ ← SafeNet.WireCbor.cschemaOf ty
+      some (match decodeAsC ty bs false with
+        | some t => s!"ok {ctreeText t}"
+        | none => "reject")
+    | ["cgold", ty, h] => do
+      let bs ← unhex h
+      let _ ← SafeNet.WireCbor.cschemaOf ty
+      some (match decodeAsC ty bs true with
+        | some t => s!"ok {ctreeText t}"
+        | none => "reject")
     | ["chunk", a, v] => do
       let a ← unhex a
       let v ← unhex v
@@ -213,6 +324,17 @@ def searchCandidates : List String :=
     ([[0x91, 8, 0], [0x91, 1, 0], [0x91, 0, 0], [0x00, 0x00, 0x00], [0x91, 1], [0x91, 0xcc, 1], [0x92, 1, 1]].filterMap fun bs =>
       if isChunk bs != (fromRecord bs).map (· == .Chunk) then some s!"ischunk {hex bs}" else none) ++
     (if (Chunk.ofVal standInHash (.bin [1, 2, 3])).map (·.address) != some (standInHash [1, 2, 3]) then
-      ["chunk 0000000000000000000000000000000000000000000000000000000000000000 010203"] else [])
+      ["chunk 0000000000000000000000000000000000000000000000000000000000000000 010203"] else []) ++
+    -- messages: if the regenerated writer and reader of `PrettyPrintRecordKey` disagree (or are no longer today's kind), the
+    -- messages that carry one, in the form the current writer produces; the harness oracle round-trips them on the real code
+    (if SafeNet.Gen.WireCodec.ppkSerKind != SafeNet.Gen.WireCodec.ppkDeKind ||
+        SafeNet.Gen.WireCodec.ppkSerKind != SafeNet.Gen.WireCodec.SerdeKind.seq then
+      let key := match SafeNet.Gen.WireCodec.ppkSerKind with
+        | .seq => "Q3 U1 U24 U255"
+        | .bytes => "B0118ff"
+      [s!"cenc Response W:Query W:GetStoreQuote R3 .quote W:Err W:RecordExists {key} .peer_address W:RecordKey B .storage_proofs Q0",
+       s!"cenc Response W:Cmd W:Replicate W:Err W:RecordExists {key}",
+       s!"cenc ProtocolError W:RecordExists {key}"]
+    else [])
 
 end SafeNet.Driver.Wire
